@@ -92,7 +92,7 @@ def gen_case(rng, tier, idx):
     T = rng.choice([5, 40, 99, 100, 101, 150, 199, 200, 201, 250, 330, 350])
     changes = []
     for _ in range(rng.choice([0, 0, 1, 2, 3, 6])):
-        t = rng.randrange(T)
+        t = rng.randrange(T) if rng.random() < 0.9 else 0
         if rng.random() < 0.35:
             # on and around the generation-chunk boundaries (also relative to an earlier change point)
             base_t = rng.choice([0] + [c["t"] for c in changes])
